@@ -97,7 +97,8 @@ Definition containsIPv6 (p x : pfx) : bool :=
 
 (* func (pfx *Prefix) Contains(x *Prefix) bool *)
 Definition Contains (p x : pfx) : bool :=
-  if plen x <=? plen p then false
+  if negb (Bool.eqb (legacy (addr p)) (legacy (addr x))) then false
+  else if plen x <=? plen p then false
   else if legacy (addr p) then containsIPv4 p x
   else containsIPv6 p x.
 
